@@ -283,7 +283,7 @@ func runC24(in *bufio.Scanner, w *bufio.Writer) {
 					wg.Add(1)
 					go func(p []byte) {
 						defer wg.Done()
-						for k := 0; k < 40; k++ {
+						for k := 0; k < 12; k++ {
 							c, err := cp.Compress(p)
 							if err != nil {
 								bad.Store(1)
